@@ -291,7 +291,10 @@ def make_db(scratch):
                  {"id": "T1", "exons": [[1001, 1200], [1601, 1800], [2201, 2400]]},
                  {"id": "T2", "exons": [[1001, 1200], [2201, 2400]]}]},
                  {"id": "G2", "chr": "chr1", "strand": "-", "transcripts": [
-                     {"id": "T3", "exons": [[3001, 3300]]}]}]}
+                     {"id": "T3", "exons": [[3001, 3300]]}]},
+                 # a gene nested in an intron of G1: the gene infos {G1} and {G1, G3} cover the same coordinates
+                 {"id": "G3", "chr": "chr1", "strand": "-", "transcripts": [
+                     {"id": "T4", "exons": [[1301, 1500]]}]}]}
     gtf = syn.write_gtf(world, os.path.join(scratch, "a.gtf"))
     return syn.build_db(gtf, os.path.join(scratch, "a.db"))
 
@@ -313,8 +316,10 @@ def stream_search(scratch, depth):
     from src.assignment_io import TmpFileAssignmentPrinter, NormalTmpFileAssignmentLoader, QuickTmpFileAssignmentLoader
     db = gffutils.FeatureDB(make_db(scratch))
     genes = list(db.features_of_type("gene", order_by="start"))
-    gi_real = GeneInfo([genes[0]], db, delta=6)
-    gi_two = GeneInfo(genes, db, delta=4)
+    by_id = {g.id: g for g in genes}
+    gi_real = GeneInfo([by_id["G1"]], db, delta=6)
+    gi_two = GeneInfo([by_id["G1"], by_id["G2"]], db, delta=4)
+    gi_nested = GeneInfo([by_id["G1"], by_id["G3"]], db, delta=6)      # same chromosome, start and end as gi_real, other genes
     gi_region = GeneInfo.from_region("chr1", 4000, 4500, delta=6)
     ra_a = default_ra(IA, PolyAInfo)
     ra_b = default_ra(IA, PolyAInfo)
@@ -329,7 +334,7 @@ def stream_search(scratch, depth):
     ra_d = default_ra(IA, PolyAInfo)      # a valid assignment without any isoform match (noninformative)
     ra_d.read_id, ra_d.assignment_type, ra_d.gene_assignment_type, ra_d.isoform_matches = "read4", IA.ReadAssignmentType.noninformative, \
         IA.ReadAssignmentType.noninformative, []
-    alphabet = {"g1": gi_real, "g2": gi_two, "gr": gi_region, "a": ra_a, "b": ra_b, "c": ra_c, "d": ra_d}
+    alphabet = {"g1": gi_real, "g2": gi_two, "gn": gi_nested, "gr": gi_region, "a": ra_a, "b": ra_b, "c": ra_c, "d": ra_d}
     states = 0
     transitions = 0
     executions = 0
